@@ -8,12 +8,15 @@ func init() {
 			"accesses made by harness callbacks to their own bookkeeping are not part of the library's footprint",
 			"two connections; each: startup + optional Parse/Bind/Describe/Execute/Sync + optional simple query + Terminate (H15); startup + optional oversized message, unknown message type, failing Bind, COPY-in cycle around one extended-query round (H15f)",
 			"sequential consistency of sync/atomic operations; plain accesses are the subject of the lemma",
+			"H15s: goroutines started by the code under test are executed at the go statement (one schedule) under their own origin; the conflict relation is order-insensitive except for the go statement itself (creator's earlier accesses happen-before the goroutine); a goroutine that would block on a channel is left blocked",
 		),
 		Runs: []HarnessRun{
 			{Pkg: "wire", Entry: "VerifH15", What: "no cell written for one connection is touched for the other without synchronisation; per-connection session_authorization; configured map untouched",
 				Quick: map[string]int{}, Witnesses: []string{"both-encode-rows", "same-names-on-both", "with-type-extension", "empty-configured-map", "with-authentication"}},
-			{Pkg: "wire", Entry: "VerifH15f", What: "the same lemma on the less travelled paths: each connection optionally skips an oversized message, sends an unknown message type, fails a Bind and is discarded until Sync, and runs a COPY-in cycle; transcripts and callback traces equal those of the same traffic served alone by a fresh server",
-				Quick: map[string]int{}, Witnesses: []string{"both-skip-an-oversized-message", "both-copy-in", "both-discard-until-sync"}},
+			{Pkg: "wire", Entry: "VerifH15f", What: "the same lemma on the less travelled paths: each connection optionally skips an oversized message, sends an unknown message type, fails a Bind and is discarded until Sync, runs a COPY-in cycle, and fails a statement with one shared, fully decorated error value re-decorated with the connection's own values; transcripts and callback traces equal those of the same traffic served alone by a fresh server",
+				Quick: map[string]int{}, Witnesses: []string{"both-skip-an-oversized-message", "both-copy-in", "both-discard-until-sync", "both-decorate-a-shared-error"}},
+			{Pkg: "wire", Entry: "VerifH15s", What: "the accept loop: Server.Serve on a listener handing out two connections; every goroutine the loop starts runs under an origin of its own (accesses the creator made before the go statement are ordered before the goroutine); no unsynchronised sharing between the loop and the connections or among the connections; each connection served as its own user",
+				Quick: map[string]int{}, Witnesses: []string{"two-connections-accepted"}},
 			{Pkg: "wire", Entry: "VerifH07b", What: "names of one connection are invisible to the next", Quick: map[string]int{}, Witnesses: []string{"isolated"}},
 		},
 	})
